@@ -107,10 +107,16 @@ def check(case):
             lib(utils.dag_to_icpdag, bad, {0})
             lib(utils.imec, bad, {1})
         if not case.get("icpdag_only"):
-            res = must(lib(utils.imec, A, npints(set(Iset), len(Iset) + p, True), **kw), "imec[%s]" % var)
+            Iarg = npints(set(Iset), len(Iset) + p, True)
+            res = must(lib(utils.imec, A, Iarg, **kw), "imec[%s]" % var)
+            if {int(v) for v in Iarg} != set(Iset):
+                raise Violation("target_set_modified", "imec changed the target set it was given: %r (was %r)" % (sorted(int(v) for v in Iarg), sorted(Iset)))
             got, n = result_set(res, p, "imec")
             compare_sets(got, n, want, "imec[%s]" % var, "A=%s I=%s" % (case["A"], I))
-        ic = np.asarray(must(lib(utils.dag_to_icpdag, A, npints(set(Iset), len(Iset) + p + 1, True)), "dag_to_icpdag[%s]" % var))
+        Iarg = npints(set(Iset), len(Iset) + p + 1, True)
+        ic = np.asarray(must(lib(utils.dag_to_icpdag, A, Iarg), "dag_to_icpdag[%s]" % var))
+        if {int(v) for v in Iarg} != set(Iset):
+            raise Violation("target_set_modified", "dag_to_icpdag changed the target set it was given: %r (was %r)" % (sorted(int(v) for v in Iarg), sorted(Iset)))
         if ic.shape != (p, p) or G.rows_from_matrix(ic) != ug:
             raise Violation("icpdag_wrong", "dag_to_icpdag[%s](A=%s, I=%s) = %s, I-essential graph is %s"
                             % (var, case["A"], I, ic.astype(int).tolist(), G.lists_from_rows(ug)))
@@ -146,7 +152,10 @@ def _check_p2i(utils, case):
     bad_target = any(u[t] for t in I)
     A = to_np(P, case.get("dtype", "int"))
     keep = A.copy()
-    o = lib(utils.pdag_to_icpdag, A, npints(set(I), len(I) + len(A), True))
+    Iarg = npints(set(I), len(I) + len(A), True)
+    o = lib(utils.pdag_to_icpdag, A, Iarg)
+    if {int(v) for v in Iarg} != set(I):
+        raise Violation("target_set_modified", "pdag_to_icpdag changed the target set it was given: %r (was %r)" % (sorted(int(v) for v in Iarg), sorted(I)))
     lab = []
     if bad_target:
         must_raise(o, ValueError, "pdag_to_icpdag(undirected edge at a target)")
